@@ -108,6 +108,11 @@ func (c *NamedCollectionNames) FindRegex(key *regexp.Regexp) []types.MatchData {
 		if key.MatchString(k) {
 			n += len(data)
 			matched = append(matched, data)
+		} else if !c.collection.isCaseSensitive {
+			if orig := filterByOriginalKey(key, data); len(orig) > 0 {
+				n += len(orig)
+				matched = append(matched, orig)
+			}
 		}
 	}
 	if n == 0 {
